@@ -218,6 +218,43 @@ func inprocTable(r *vh.Run, i int) {
 			return
 		}
 	}
+	if !s.Referrers && s.Push && !s.ReadOnly {
+		// with the referrers API off a manifest with a subject is an ordinary manifest: no OCI-Subject on the answer,
+		// no referrers bookkeeping in the layout, /referrers/ stays unavailable
+		m := w.Repos["r"]
+		var cfg *vh.Blob
+		_ = m
+		cfg = u.Blobs[0]
+		w.PushBlob("r", cfg) // (the table may have removed content; an upload of stored content is acknowledged as well)
+		subj := vh.DigestOf("sha256", []byte(fmt.Sprint("subject", i)))
+		img := vh.MkImage("ai", "sha256", vh.MTImage, cfg, vh.MTConfig, nil, subj, "application/x.a", map[string]string{"i": fmt.Sprint(i)})
+		idx := vh.MkIndex("ax", "sha256", vh.MTIndex, nil, subj, "application/x.a", map[string]string{"i": fmt.Sprint(i)})
+		for _, a := range []*vh.Man{img, idx} {
+			rs := w.Do(vh.Req{Method: "PUT", URL: "/v2/r/manifests/" + a.D, H: map[string]string{"Content-Type": a.MT}, Body: a.Raw})
+			wit["probe"] = "artifact-push-with-referrers-off"
+			if rs.Status != 201 {
+				wit["answer"] = string(rs.Body)
+				wit["config"] = cfg.D
+				r.Violation("switch:refused:artifact-push", fmt.Sprintf("with the referrers API off a manifest with a subject was answered %d", rs.Status), wit)
+				return
+			}
+			if rs.H.Get("OCI-Subject") != "" {
+				r.Violation("referrers-off:oci-subject", fmt.Sprintf("with the referrers API off the push of a %s with a subject is answered with OCI-Subject", a.MT), wit)
+				return
+			}
+		}
+		if g := w.Do(vh.Req{Method: "GET", URL: "/v2/r/referrers/" + subj}); g.Status != 404 {
+			r.Violation("switch:not-refused:referrers-get", fmt.Sprintf("with the referrers API off GET referrers answered %d", g.Status), wit)
+			return
+		}
+		if kind == vh.Dir {
+			if b, err := os.ReadFile(filepath.Join(root, "r", "index.json")); err == nil && strings.Contains(string(b), "org.olareg.referrer.subject") {
+				r.Violation("referrers-off:layout", "with the referrers API off index.json gained a referrers answer entry", wit)
+				return
+			}
+		}
+		r.Count("referrers_off_artifact_checks", 1)
+	}
 	r.Count("inproc_table_trials", 1)
 }
 
@@ -591,13 +628,38 @@ func rateTrial(r *vh.Run, i int) {
 		r.Violation("ratelimit:count", fmt.Sprintf("limit %d: of %d requests from one address inside its accounting second %d were served, expected %d", L, qualifying, served, want), wit)
 		return
 	}
-	// after the window has certainly passed the address is served again
-	if i%4 == 0 {
-		time.Sleep(1100 * time.Millisecond)
-		if st, _ := send(A); st != 200 {
-			r.Violation("ratelimit:never-reset", fmt.Sprintf("1.1 s after its last request the address is still refused (%d)", st), wit)
+	// later accounting seconds of the same address: after the window has certainly passed the address is served again,
+	// and again at most L times
+	if i%3 == 0 {
+		for burst := 2; burst <= 3; burst++ {
+			time.Sleep(1100 * time.Millisecond)
+			tb := time.Now()
+			sv, q := 0, 0
+			for k := 0; k < L+3; k++ {
+				st, _ := send(A)
+				if time.Since(tb) >= time.Second {
+					break
+				}
+				q++
+				if st == 200 {
+					sv++
+				}
+				if k == 0 && st != 200 {
+					r.Violation("ratelimit:never-reset", fmt.Sprintf("1.1 s after its last request the address is still refused (%d)", st), wit)
+					return
+				}
+			}
+			wantB := L
+			if q < L {
+				wantB = q
+			}
+			r.Count("rate_reset_checks", 1)
+			if sv != wantB {
+				wit["burst"], wit["burst_sent"], wit["burst_served"] = burst, q, sv
+				r.Violation("ratelimit:count-later-window", fmt.Sprintf("limit %d: in accounting second %d of the same address %d of %d requests were served, expected %d", L, burst, sv, q, wantB), wit)
+				return
+			}
 		}
-		r.Count("rate_reset_checks", 1)
 	}
 }
 
